@@ -211,7 +211,7 @@ func collectSubjects(v reflect.Value, out map[string]bool, depth int) {
 			collectSubjects(v.Index(i), out, depth+1)
 		}
 	case reflect.Map:
-		for _, k := range v.MapKeys() {
+		for _, k := range sortedMapKeys(v) {
 			collectSubjects(k, out, depth+1)
 			collectSubjects(v.MapIndex(k), out, depth+1)
 		}
